@@ -11,10 +11,11 @@ import numpy as np
 
 from ..simkit import gen, refmodel
 from ..simkit.backends import BackendFault, classes
-from ..simkit.core import call, judge, clear_library_caches
+from ..simkit.core import WallLimit, call, judge, clear_library_caches, time_limit
 
 PID = "C01"
 FAMILIES = ["all", "none", "gateop", "arity", "names", "parity", "nongate"]
+SYM_NAMES = ["theta", "phi", "x"]
 
 
 def _nonunitary(g):
@@ -61,13 +62,14 @@ class World:
     }
     ASSUMPTIONS = [
         "the gate's own .matrix is taken as given (C02/C07 own its correctness); C01 judges placement, order, width and state threading",
-        "numeric parameters only (Python numbers and sympy numbers); symbolic evaluation belongs to C06",
+        "symbolic circuits (every gate carrying free symbols) are compared after substituting one random point into the library's symbolic answer and into each gate's own symbolic matrix; binding (C06) is not used",
         "non-unitary gates (exp wrappers, non-unitary custom matrices) are only used in to_unitary/step-wise steps because get_wavefunction legitimately refuses unnormalised states",
         "tolerance 1e-9*(1+#ops) on amplitudes",
     ]
     PROBES_EXPECTED = ["multi-segment-split", "non-adjacent-indices", "descending-indices", "concat", "append-op",
                        "idle-qubits", "initial-state", "peer-fault", "after-peer-fault", "phase-op", "wrapper-gate",
-                       "custom-gate", "empty-circuit", "unitary", "stepwise", "arity>=3", "rejected-request", "inplace-backend"]
+                       "custom-gate", "empty-circuit", "unitary", "stepwise", "arity>=3", "rejected-request", "inplace-backend",
+                       "symbolic-circuit"]
 
     # ------------------------------------------------------------ generation
     def gen_plan(self, seed, tier):
@@ -86,7 +88,8 @@ class World:
             sims.append({"kind": "split", "family": fam, "arg": arg, "real_apply": r.random() < 0.5, "inplace": r.random() < 0.3})
         cfg = {"n": n, "sims": sims, "faults": r.choice(["none", "none", "low", "medium"]), "clients": r.randint(1, 3),
                "wrappers": r.choice([0.0, 0.3, 0.6]), "phase_ops": r.choice([0.0, 0.15, 0.3]),
-               "exclude": [] if r.random() < 0.5 else ["U3"], "cache_clear": r.choice([0, 0.2])}
+               "exclude": [] if r.random() < 0.5 else ["U3"], "cache_clear": r.choice([0, 0.2]),
+               "symbolic": r.choice([0, 0.6, 1.5])}
         n_steps = r.randint(5, 25)
         steps = []
         n_ops_max = 12 if n <= 3 else 8
@@ -100,8 +103,8 @@ class World:
             steps.append(mk())
         pf = {"none": 0.0, "low": 0.1, "medium": 0.3}[cfg["faults"]]
         while len(steps) < n_steps:
-            op = r.choices(["mk", "concat", "append", "wf", "unitary", "stepwise", "reject", "clear"],
-                           [2, 2, 1.5, 8, 3, 2, 0.7, 0.3 if cfg["cache_clear"] else 0])[0]
+            op = r.choices(["mk", "concat", "append", "wf", "unitary", "stepwise", "reject", "clear", "symeval"],
+                           [2, 2, 1.5, 8, 3, 2, 0.7, 0.3 if cfg["cache_clear"] else 0, cfg["symbolic"]])[0]
             if op == "mk":
                 steps.append(mk())
             elif op == "concat":
@@ -122,6 +125,8 @@ class World:
                 steps.append({"op": "unitary", "args": {"c": r.randrange(64)}})
             elif op == "stepwise":
                 steps.append({"op": "stepwise", "args": {"c": r.randrange(64), "init": r.choice([None, {"basis": r.randrange(32)}, {"rand": r.getrandbits(30)}])}})
+            elif op == "symeval":
+                steps.append(self._gen_symeval(r, cfg))
             elif op == "reject":
                 steps.append({"op": "reject", "args": {"sim": r.randrange(8), "c": r.randrange(64), "n": r.choice([0, -1])}})
             else:
@@ -130,6 +135,22 @@ class World:
             s["client"] = r.randrange(cfg["clients"])
             s["rs"] = r.getrandbits(32)
         return {"format": 1, "property": PID, "world": "runners", "seed": seed, "config": cfg, "steps": steps}
+
+    def _gen_symeval(self, r, cfg):
+        """An all-symbolic circuit (every gate parametric, every parameter an expression over free symbols): the
+        library then works with sympy matrices throughout - a separate lifting / product code path."""
+        n = r.choice([1, 2, 2, 3, 3])
+        nonparam = [g for g, (_, npar) in gen.BUILTIN.items() if npar == 0] + ["MyFixed", "MyPerm3", "MyNonUnitary"]
+        excl = nonparam + (["U3"] if r.random() < 0.7 else [])
+
+        def circ(k):
+            return gen.rand_circuit(r, r.choice([n, n, max(1, n - 1)]), k, wrappers=r.choice([0.0, 0.3]), powexp=False,
+                                    symbolic=1.0, exclude=excl, custom=0.15, max_arity=3, symbols=SYM_NAMES)
+        a = {"c": circ(r.choice([1, 2, 3, 4])), "vals": {s_: r.uniform(-3, 3) for s_ in SYM_NAMES},
+             "init": r.choice([{"basis": r.randrange(8)}, {"rand": r.getrandbits(30)}])}
+        if r.random() < 0.4:
+            a["c2"] = circ(r.choice([1, 2]))
+        return {"op": "symeval", "args": a}
 
     def sample(self, plan):
         return {"seed": plan["seed"], "config": plan["config"], "n_steps": len(plan["steps"]),
@@ -445,6 +466,104 @@ class World:
         st["evals"] += 1
         ctx.probe("stepwise")
         ctx.log("stepwise", "ok", n=n, n_ops=len(ent["ops"]))
+
+    def _do_symeval(self, ctx, st, step, a):
+        import sympy
+        from orquestra.quantum.runners.symbolic_simulator import SymbolicSimulator
+
+        ok, c1 = call(gen.build_circuit, a["c"])
+        if not ok:
+            ctx.fail("unexpected-reject", "construct-symbolic", f"constructing {a['c']} raised {type(c1).__name__}: {c1}")
+        circ, ops = c1, list(c1.operations)
+        n = a["c"].get("n") or (max([max(o.qubit_indices) for o in ops] + [-1]) + 1)
+        if "c2" in a:
+            ok, c2 = call(gen.build_circuit, a["c2"])
+            if not ok:
+                ctx.fail("unexpected-reject", "construct-symbolic", f"constructing {a['c2']} raised {type(c2).__name__}: {c2}")
+            ops2 = list(c2.operations)
+            n2 = a["c2"].get("n") or (max([max(o.qubit_indices) for o in ops2] + [-1]) + 1)
+            ok, circ = call(lambda: c1 + c2)
+            ctx.check(ok, "unexpected-reject", "concat-symbolic", lambda: f"c1 + c2 raised {type(circ).__name__}: {circ}")
+            ops, n = ops + ops2, max(n, n2)
+            ctx.check(circ.n_qubits == n, "refine", "concat-width", f"symbolic concat: n_qubits {circ.n_qubits} != {n}")
+            ctx.probe("concat")
+        if not ops or n == 0:
+            ctx.log("symeval", "noop")
+            return
+        vals = {sympy.Symbol(k): float(v) for k, v in a["vals"].items()}
+
+        def num(e):
+            return complex(sympy.sympify(e).subs(vals).evalf())
+
+        def nummat(m):
+            m = sympy.Matrix(m)
+            return np.array([[num(m[i, j]) for j in range(m.shape[1])] for i in range(m.shape[0])], dtype=complex)
+
+        mats = []
+        for o in ops:  # the gates' own (symbolic) matrices, evaluated at the chosen point
+            okm, u = call(lambda: nummat(o.gate.matrix))
+            if not okm:
+                ctx.probe("symbolic-own-matrix-unavailable")
+                ctx.log("symeval", "own-matrix-unavailable")
+                return
+            mats.append(u)
+
+        def model(v):
+            for o, u in zip(ops, mats):
+                v = refmodel.apply_matrix(v, u, list(o.qubit_indices), n)
+            return v
+
+        tol = 1e-9 * (1 + len(ops))
+        # whole matrix through the sympy lifting path
+        ok, u = call(circ.to_unitary)
+        ctx.called("Circuit.to_unitary[symbolic]")
+        ctx.check(ok, "unexpected-reject", "to_unitary-symbolic", lambda: f"to_unitary raised {type(u).__name__}: {u} for {circ!r}")
+        with judge(ctx):
+            um = nummat(u)
+            ctx.check(um.shape == (2 ** n, 2 ** n), "refine", "unitary-shape", f"shape {um.shape} for {n} qubits")
+            want = np.stack([model(np.eye(2 ** n, dtype=complex)[:, j]) for j in range(2 ** n)], axis=1)
+            err = float(np.max(np.abs(um - want)))
+            ctx.check(err <= tol, "refine", "whole-matrix-symbolic",
+                      lambda: f"symbolic to_unitary at {a['vals']} differs from the ordered product by {err:.3e} for {circ!r}")
+        # step-wise application to a numeric state
+        init = self._init_state(a["init"], n, None)
+        state, want = init.copy(), init.copy()
+        for k, (o, m) in enumerate(zip(ops, mats)):
+            ok, state = call(o.apply, state)
+            ctx.check(ok, "unexpected-reject", "apply-symbolic", lambda: f"op {k} {o}: apply raised {type(state).__name__}: {state}")
+            want = refmodel.apply_matrix(want, m, list(o.qubit_indices), n)
+            with judge(ctx):
+                got = np.array([num(e) for e in np.asarray(state, dtype=object).reshape(-1)], dtype=complex)
+                err = float(np.max(np.abs(got - want)))
+                ctx.check(err <= tol, "refine", "stepwise-symbolic", lambda: f"after op {k} ({o}) state differs from model by {err:.3e}")
+        # bundled simulator, default and explicit initial state.  Building a symbolic Wavefunction costs sympy
+        # seconds per entry once expressions grow (complex(expr) attempts inside the constructor), so only short
+        # programs are simulated, and a wall-clock net turns anything slower into a skipped comparison (a probe)
+        import json as _json
+        text = _json.dumps([a["c"], a.get("c2")])
+        heavy = any(k in text for k in ('"RH"', '"U3"', "sqrt"))
+        for ini in ((None, init) if len(ops) <= (2 if heavy else 3) else ()):
+            try:
+                with time_limit(20):
+                    ok, wf = call(SymbolicSimulator().get_wavefunction, circ, None if ini is None else ini.copy())
+            except WallLimit:
+                ctx.probe("symbolic-simulation-skipped-slow")
+                break
+            ctx.called("get_wavefunction:SymbolicSimulator[symbolic]")
+            ctx.check(ok, "unexpected-reject", "simulate-symbolic", lambda: f"get_wavefunction raised {type(wf).__name__}: {wf} for {circ!r}")
+            v0 = np.eye(2 ** n, dtype=complex)[:, 0] if ini is None else ini
+            with judge(ctx):
+                got = np.array([num(e) for e in np.asarray(wf.amplitudes, dtype=object).reshape(-1)], dtype=complex)
+                err = float(np.max(np.abs(got - model(v0))))
+                ctx.check(err <= tol, "refine", "final-state-symbolic",
+                          lambda: f"SymbolicSimulator final state (symbolic circuit, at {a['vals']}) differs from model by {err:.3e} for {circ!r}")
+        st["evals"] += 1
+        ctx.probe("symbolic-circuit")
+        for o in ops:
+            q = list(o.qubit_indices)
+            if len(q) >= 2 and (any(abs(x - y) != 1 for x, y in zip(q, q[1:])) or any(x > y for x, y in zip(q, q[1:]))):
+                st["interesting"] = True
+        ctx.log("symeval", "ok", n=n, n_ops=len(ops))
 
     def shrink_step(self, s):
         a = s.get("args", {})
